@@ -43,6 +43,12 @@ CHECKS = {
    note="Trusted: the catalogue's predicted effects (each entry is independent of interleaving and was validated fault-free against the implementation); symbol names are upper case; expression texts end with a newline as in the repository's own API test; a value passed to bloc_ctx_store_variable is only freed or re-assigned afterwards; 'no memory remains' is LeakSanitizer's reachability verdict; bloc_errno may be 0 for the EOF error class (the library's own code for it) as long as bloc_strerror is set.",
    technique="deterministic simulation: seeded API-call histories from a handle state machine with injected parse/runtime errors, cancel and purge; reference-model oracle, ASan use-after-free monitor, in-process LSan after release",
    design="DESIGN.md section 4 (C15)"),
+ "C19": dict(
+   level="exploration",
+   text="The repository's own main() (apps/*.cpp compiled with -Dmain=bloc_cli_main) runs inside the per-run child process with simulator-owned standard output, --out file and stdin: stdin is an fopencookie stream whose refill sizes the plan decides, select() on it is wrapped so that the plan injects timeouts (each advancing the simulated clock by 1 s) and EINTR, dlopen of libreadline is refused, CLOCK_REALTIME is simulated. Plans combine generated programs (succeeding, failing to compile through token damage, failing at run time, returning every value type or nothing), argument vectors (empty, many, spaces, quotes, non-ASCII, leading dashes) and the modes file, '-', --out=F, -e expr and -i. The oracle is the same program run through the library in the same process: bytes on the selected output plus the returned value, $ARG echoed by the program, exit status 0 iff compiled and ran without unhandled error, 'Error (l:c):' for compile errors, and for -i the transcript minus prompts and Elapsed lines.",
+   note="Trusted: the harness' rendering of a returned value uses the library's readable* helpers (the CLI's own type dispatch is what is checked); -i is fed programs without return statements or runtime errors; write errors on the output (full disk) are not injected because the property does not define them; readline is stubbed out.",
+   technique="deterministic simulation: the CLI main() run in-process under simulated stdin/select/clock seams with injected short reads, timeouts and EINTR; differential oracle against the library",
+   design="DESIGN.md section 4 (C19)"),
 }
 
 NOT_APPLICABLE = {
